@@ -386,4 +386,73 @@ theorem expand2_eq_bcastMask (N T m0 m1 : Nat) (mask : List (List Bool))
       · intro t ht1 ht2
         simp [h1']
 
+/-! ## 7. random_shift for an arbitrary amount arithmetic (audit round E)
+
+`randomShiftWith amt` is `random_shift` with the arithmetic that turns `(prop, len, draw)` into a number of
+elements left abstract. Exact arithmetic (`randomShift`) and the double-precision arithmetic of the repaired
+code (`randomShiftF64`) are the two instances; what follows holds for every `amt`. -/
+
+/-- training mode on a legal request: the whole output and the reported lengths -/
+theorem randomShiftWith_train (amt : Rat → Nat → Rat → Nat) (mode : Mode) (value : α) (T : Nat)
+    (p0 p1 : Rat) (rows : List (ShiftRow α)) (hne : rows ≠ [])
+    (h : ∀ s ∈ rows, (s.toPadWith amt p0 p1).Legal mode T) :
+    randomShiftWith amt false mode value T p0 p1 true rows
+      = .ok (rows.map (fun s =>
+              padSeq mode value (amt p0 s.len s.u0) (amt p1 s.len s.u1) (s.x.take s.len)
+                ++ List.replicate (maxOf ((rows.map (ShiftRow.toPadWith amt p0 p1)).map PadRow.newLen)
+                    - (s.toPadWith amt p0 p1).newLen) value),
+             rows.map (fun s => s.len + (amt p0 s.len s.u0 + amt p1 s.len s.u1))) := by
+  have hpad : padVariable false mode value T (rows.map (ShiftRow.toPadWith amt p0 p1))
+      = .ok ((rows.map (ShiftRow.toPadWith amt p0 p1)).map (fun p =>
+          padSeq mode value p.l p.r (p.x.take p.len)
+            ++ List.replicate (maxOf ((rows.map (ShiftRow.toPadWith amt p0 p1)).map PadRow.newLen)
+                - p.newLen) value)) :=
+    padVariable_eq mode value T _ (by simpa using hne) (by
+      intro p hp
+      obtain ⟨s, hs, rfl⟩ := List.mem_map.1 hp
+      exact h s hs)
+  simp only [randomShiftWith, if_true, hpad, List.map_map]
+  rfl
+
+/-- the original sequence sits unchanged between the two paddings (a fact about `padSeq` alone) -/
+theorem padSeq_embeds (mode : Mode) (value : α) (l r : Nat) (xs : List α) :
+    ((padSeq mode value l r xs).drop l).take xs.length = xs
+    ∧ (padSeq mode value l r xs).length = l + xs.length + r := by
+  rw [padSeq_eq]
+  constructor
+  · rw [List.append_assoc, List.drop_left' (leftPart_length mode value l xs), List.take_left' rfl]
+  · simp only [List.length_append, leftPart_length, rightPart_length]
+
+/-- training mode, row by row: reported length, valid part = per-sequence padding, original embedded at
+offset `l` -/
+theorem randomShiftWith_rows (amt : Rat → Nat → Rat → Nat) (mode : Mode) (value : α) (T : Nat)
+    (p0 p1 : Rat) (rows : List (ShiftRow α)) (hne : rows ≠ [])
+    (h : ∀ s ∈ rows, (s.toPadWith amt p0 p1).Legal mode T) :
+    ∃ out lens, randomShiftWith amt false mode value T p0 p1 true rows = .ok (out, lens) ∧
+      out.length = rows.length ∧ lens.length = rows.length ∧
+      ∀ (n : Nat) (hn : n < rows.length) (ho : n < out.length) (hl : n < lens.length),
+        lens[n] = (rows[n]).len + (amt p0 (rows[n]).len (rows[n]).u0 + amt p1 (rows[n]).len (rows[n]).u1)
+        ∧ (out[n]).take lens[n]
+            = padSeq mode value (amt p0 (rows[n]).len (rows[n]).u0) (amt p1 (rows[n]).len (rows[n]).u1)
+                ((rows[n]).x.take (rows[n]).len)
+        ∧ ((out[n]).drop (amt p0 (rows[n]).len (rows[n]).u0)).take (rows[n]).len
+            = (rows[n]).x.take (rows[n]).len := by
+  refine ⟨_, _, randomShiftWith_train amt mode value T p0 p1 rows hne h, by simp, by simp, ?_⟩
+  intro n hn ho hl
+  obtain ⟨hx, hlen, _⟩ := h rows[n] (List.getElem_mem hn)
+  have hxl : ((rows[n]).x.take (rows[n]).len).length = (rows[n]).len := by
+    simp only [ShiftRow.toPadWith] at hx hlen
+    simp [hx, hlen]
+  obtain ⟨hemb, hplen⟩ := padSeq_embeds mode value (amt p0 (rows[n]).len (rows[n]).u0)
+    (amt p1 (rows[n]).len (rows[n]).u1) ((rows[n]).x.take (rows[n]).len)
+  rw [hxl] at hemb hplen
+  simp only [List.getElem_map]
+  refine ⟨trivial, ?_, ?_⟩
+  · apply List.take_left'
+    rw [hplen]
+    omega
+  · rw [List.drop_append_of_le_length (by rw [hplen]; omega),
+      List.take_append_of_le_length (by rw [List.length_drop, hplen]; omega)]
+    exact hemb
+
 end PdtVerif.PadChunk
